@@ -466,7 +466,14 @@ class Mesh:
         if normal is not None:
             tind = self.f2t[0, facets]
             mapping = self._mapping()
-            normals = mapping.normals(np.zeros((self.dim(), 1)),
+            # the normal at the midpoint of the facet (a vertex repeated for
+            # padding counts once): away from the facet the Jacobian of a
+            # non-affine cell belongs to another side of the cell
+            refdom = self.elem.refdom
+            mids = np.array([refdom.p[:, np.unique(f)].mean(axis=1)
+                             for f in refdom.facets]).T
+            loc = np.argmax(self.t2f[:, tind] == facets, axis=0)
+            normals = mapping.normals(mids[:, loc][:, :, None],
                                       tind,
                                       facets,
                                       self.t2f).T[0].T
